@@ -1,6 +1,6 @@
 From Coq Require Import List NArith Bool Arith.
 Import ListNotations.
-Require Import Sigtools.Model.Sched Sigtools.Proofs.Sched Sigtools.Proofs.SchedBounded.
+Require Import Sigtools.Model.Sched Sigtools.Proofs.Sched Sigtools.Proofs.SchedBounded Sigtools.Proofs.SchedGeneral.
 Open Scope nat_scope.
 
 Theorem C17_no_loss : forall (c : cfg) (init : store) (kinds : list kind) (sched : list nat), all_done (run c (init_state init kinds) sched) = true -> g_store (run c (init_state init kinds) sched) = init.
@@ -54,3 +54,45 @@ Print Assumptions C17_guard_bounded_2threads.
 Theorem C17_guard_bounded_3threads : forall p, In p (all_plans 25 3 2) -> g_verdict 3 p = true.
 Proof. exact guard_bounded_3threads. Qed.
 Print Assumptions C17_guard_bounded_3threads.
+
+(* ---- for any number of threads and any schedule (Proofs/SchedGeneral.v) ----
+   an `exclusive` schedule (no step that reads or changes the attributes, and no entering of the
+   window, while another thread is inside its window) gives every thread its solo answer and
+   leaves the attributes as they were; conversely a non-sequential answer needs an overlap.
+   The same for the as_forged recursion guard (g_exclusive is defined in SchedGeneral.v). *)
+Theorem C17_sequential_exclusive : forall (c : cfg) (init : store) (kinds : list kind) (sched : list nat), exclusive c (init_state init kinds) sched = true -> (forall th : thread, In th (g_threads (run c (init_state init kinds) sched)) -> is_done th = true -> th_ans th = Some (seq_answer c init (th_kind th))) /\ (all_done (run c (init_state init kinds) sched) = true -> g_store (run c (init_state init kinds) sched) = init /\ answers_ok c init (run c (init_state init kinds) sched) = true).
+Proof. exact @sequential_exclusive. Qed.
+Print Assumptions C17_sequential_exclusive.
+
+Theorem C17_nonsequential_needs_overlap : forall (c : cfg) (init : store) (kinds : list kind) (sched : list nat) (th : thread), In th (g_threads (run c (init_state init kinds) sched)) -> is_done th = true -> thread_seq_ok c init th = false -> exclusive c (init_state init kinds) sched = false.
+Proof. exact @nonsequential_needs_overlap. Qed.
+Print Assumptions C17_nonsequential_needs_overlap.
+
+Theorem C17_plan_sequential_exclusive : forall (c : cfg) (init : store) (kinds : list kind) (p : plan) (st' : state), run_plan c (init_state init kinds) p = Some st' -> plan_excl c (init_state init kinds) p = true -> answers_ok c init st' = true.
+Proof. exact @plan_sequential_exclusive. Qed.
+Print Assumptions C17_plan_sequential_exclusive.
+
+Theorem C17_plan_nonsequential_needs_overlap : forall (c : cfg) (init : store) (kinds : list kind) (p : plan) (st' : state), run_plan c (init_state init kinds) p = Some st' -> answers_ok c init st' = false -> plan_excl c (init_state init kinds) p = false.
+Proof. exact @plan_nonsequential_needs_overlap. Qed.
+Print Assumptions C17_plan_nonsequential_needs_overlap.
+
+Theorem C17_solo_answer : forall (c : cfg) (init : store) (k : kind) (th : thread), nth_error (g_threads (run c (init_state init [k]) (repeat 0 80))) 0 = Some th -> is_done th = true /\ th_kind th = k /\ th_ans th = Some (seq_answer c init k).
+Proof. exact @solo_answer. Qed.
+Print Assumptions C17_solo_answer.
+
+Theorem C17_concurrent_equals_solo : forall (c : cfg) (init : store) (kinds : list kind) (sched : list nat) (t : nat) (th : thread), exclusive c (init_state init kinds) sched = true -> nth_error (g_threads (run c (init_state init kinds) sched)) t = Some th -> is_done th = true -> nth_error kinds t = Some (th_kind th) /\ (exists th0 : thread, nth_error (g_threads (run c (init_state init [th_kind th]) (repeat 0 80))) 0 = Some th0 /\ is_done th0 = true /\ th_ans th = th_ans th0).
+Proof. exact @concurrent_equals_solo. Qed.
+Print Assumptions C17_concurrent_equals_solo.
+
+Theorem C17_guard_clear_at_quiescence : forall (n : nat) (sched : list nat), g_all_done (grun (ginit n) sched) = true -> gs_guard (grun (ginit n) sched) = false.
+Proof. exact @guard_clear_at_quiescence. Qed.
+Print Assumptions C17_guard_clear_at_quiescence.
+
+Theorem C17_guard_sequential_exclusive : forall (n : nat) (sched : list nat), g_exclusive (ginit n) sched = true -> (forall th : gthread, In th (gs_threads (grun (ginit n) sched)) -> g_is_done th = true -> g_ans th = 1%N) /\ g_any_out (grun (ginit n) sched) = false /\ regionN (gs_threads (grun (ginit n) sched)) = b2n (gs_guard (grun (ginit n) sched)).
+Proof. exact @guard_sequential_exclusive. Qed.
+Print Assumptions C17_guard_sequential_exclusive.
+
+Theorem C17_guard_wrong_needs_overlap : forall (n : nat) (sched : list nat) (th : gthread), In th (gs_threads (grun (ginit n) sched)) -> g_is_done th = true /\ g_ans th <> 1%N \/ g_is_out th = true -> g_exclusive (ginit n) sched = false.
+Proof. exact @guard_wrong_needs_overlap. Qed.
+Print Assumptions C17_guard_wrong_needs_overlap.
+
